@@ -68,6 +68,18 @@ def skew_families(repo):
         if not inl.stores and isinstance(v0, ast.Call) and dotted(v0.func) == 'vec2skew':
             out[fam] = True
             continue
+        # zero padding of a skew block (pad(vec2skew(.), (l, r, t, b)) with l == t, r == b keeps it on the diagonal) is skew-symmetric as well
+        if not inl.stores and isinstance(v0, ast.Call) and (dotted(v0.func) or '').split('.')[-1] == 'pad' and len(v0.args) >= 2 and \
+                isinstance(v0.args[0], ast.Call) and dotted(v0.args[0].func) == 'vec2skew':
+            try:
+                pd = ast.literal_eval(v0.args[1])
+            except (ValueError, SyntaxError):
+                pd = None
+            kw = {k.arg: k.value for k in v0.keywords}
+            zero_fill = 'value' not in kw or (isinstance(kw['value'], ast.Constant) and kw['value'].value in (0, 0.0))
+            if isinstance(pd, (tuple, list)) and len(pd) == 4 and pd[0] == pd[2] and pd[1] == pd[3] and zero_fill and kw.get('mode') is None:
+                out[fam] = True
+                continue
         ok = bool(inl.stores) and all(_diag_block(idx) and isinstance(val, ast.Call) and dotted(val.func) == 'vec2skew'
                                       for bk, idx, val, st in inl.stores)
         ok = ok and not any(c in callees for c in ('torch.eye',))
@@ -671,8 +683,143 @@ def rule_hrow(repo, tier):
     return res
 
 
+FRESH_CTORS = {'torch.zeros', 'torch.ones', 'torch.eye', 'torch.empty', 'torch.full'}
+
+
+def _vmap_scan(repo, f, tainted, depth, trail, out, seen):
+    """Forward taint scan of one function body: `tainted` = names holding values that are BATCHED under vmap (the cotangent of a vectorised
+    reverse pass and everything computed from it).  A tensor allocated by an explicit constructor from shape expressions (torch.zeros(x.shape[:-1] + ..))
+    is un-batched under vmap whatever its operands; writing a batched value into it in place is the operation vmap cannot do.
+    -> True if the function's result is tainted."""
+    key = (f.fq, tuple(sorted(tainted)))
+    if key in seen or depth > 3:
+        return True
+    seen.add(key)
+    tainted = set(tainted)
+    fresh = set()
+    ret_tainted = False
+
+    def is_t(e):
+        # meta-data of a batched tensor (shape / dtype / device / size()) is not batched
+        meta = set()
+        for x in ast.walk(e):
+            if isinstance(x, ast.Attribute) and x.attr in ('shape', 'device', 'dtype', 'ndim', 'layout', 'size', 'dim', 'numel') and isinstance(x.value, ast.Name):
+                meta.add(id(x.value))
+        return any(isinstance(x, ast.Name) and x.id in tainted and id(x) not in meta for x in ast.walk(e))
+
+    def call_effects(st):
+        """calls inside st that receive a tainted argument: scan the callee"""
+        nonlocal ret_tainted
+        for c in paths.calls_in(st):
+            args = list(c.args) + [k.value for k in c.keywords]
+            targs = [i for i, a_ in enumerate(c.args) if is_t(a_)]
+            if not targs:
+                continue
+            callee = None
+            if isinstance(c.func, ast.Name) and c.func.id in repo.module(OP).functions:
+                callee = repo.module(OP).functions[c.func.id]
+                params = callee.pos_params
+            elif isinstance(c.func, ast.Attribute) and c.func.attr == 'apply' and isinstance(c.func.value, ast.Name) and c.func.value.id in repo.module(OP).classes:
+                ci = repo.module(OP).classes[c.func.value.id]
+                callee = ci.methods.get('forward')
+                params = [p_ for p_ in (callee.pos_params if callee else []) if p_ != 'ctx']
+            if callee is None:
+                continue
+            tp = {params[i] for i in targs if i < len(params)}
+            if tp:
+                _vmap_scan(repo, callee, tp, depth + 1, trail + [f.fq], out, seen)
+
+    def walk(body):
+        nonlocal ret_tainted
+        for st in body:
+            if isinstance(st, (ast.FunctionDef, ast.ClassDef)):
+                continue
+            call_effects(st)
+            if isinstance(st, ast.Assign):
+                v = st.value
+                for t in st.targets:
+                    if isinstance(t, ast.Subscript):
+                        base = t.value
+                        if isinstance(base, ast.Name) and base.id in fresh and is_t(v):
+                            out.append((f, st, base.id, trail + [f.fq]))
+                    for el in (t.elts if isinstance(t, (ast.Tuple, ast.List)) else [t]):
+                        if isinstance(el, ast.Name):
+                            d = dotted(v.func) if isinstance(v, ast.Call) else None
+                            core = v
+                            while isinstance(core, ast.Call) and isinstance(core.func, ast.Attribute) and core.func.attr in ('repeat', 'expand', 'clone', 'contiguous', 'to'):
+                                core = core.func.value
+                            dc = dotted(core.func) if isinstance(core, ast.Call) else None
+                            if dc in FRESH_CTORS and not is_t(core):
+                                fresh.add(el.id)
+                                tainted.discard(el.id)
+                            elif is_t(v):
+                                tainted.add(el.id)
+                                fresh.discard(el.id)
+                            else:
+                                fresh.discard(el.id)
+                                tainted.discard(el.id)
+            elif isinstance(st, ast.AugAssign):
+                base = st.target.value if isinstance(st.target, ast.Subscript) else st.target
+                if isinstance(base, ast.Name) and base.id in fresh and is_t(st.value):
+                    out.append((f, st, base.id, trail + [f.fq]))
+                elif isinstance(st.target, ast.Name) and is_t(st.value):
+                    tainted.add(st.target.id)
+            elif isinstance(st, ast.Expr) and isinstance(st.value, ast.Call) and isinstance(st.value.func, ast.Attribute) and st.value.func.attr.endswith('_') \
+                    and isinstance(st.value.func.value, ast.Name) and st.value.func.value.id in fresh and any(is_t(a_) for a_ in st.value.args):
+                out.append((f, st, st.value.func.value.id, trail + [f.fq]))
+            elif isinstance(st, ast.Return) and st.value is not None and is_t(st.value):
+                ret_tainted = True
+            for fld in ('body', 'orelse', 'finalbody'):
+                sub = getattr(st, fld, None)
+                if isinstance(sub, list) and sub and isinstance(sub[0], ast.stmt):
+                    walk(sub)
+    walk(f.node.body)
+    return ret_tainted
+
+
+@guarded
+def rule_vmap(repo, tier):
+    """The vectorised reverse pass (pp.func.jacrev, torch.autograd.functional.jacobian(vectorize=True), modjac(vectorize=True)) runs every backward ONCE
+    under torch.vmap with the cotangent batched.  All operators declare generate_vmap_rule = True, i.e. their bodies are executed under vmap as they
+    are.  What vmap cannot execute is an in-place write of a batched value into an un-batched tensor: a buffer allocated inside the body by
+    torch.zeros / eye / empty from shape expressions is un-batched, a value computed from the cotangent is batched."""
+    res = RuleResult('C04.VMAP', 'vectorised reverse mode: in no backward (and in no helper / forward it calls with a cotangent-derived argument) is a value '
+                     'computed from grad_output written in place into a tensor freshly allocated from shape expressions (torch.zeros / eye / empty): the write '
+                     'is what vmap rejects, so the Jacobian cannot be taken by jacrev for that operator while its siblings work', floor=25)
+    out = []
+    n = 0
+    for cname, ci in sorted(repo.module(OP).classes.items()):
+        bw = ci.methods.get('backward')
+        if bw is None:
+            continue
+        gv = any(isinstance(st, ast.Assign) and any(isinstance(t, ast.Name) and t.id == 'generate_vmap_rule' for t in st.targets) and
+                 isinstance(st.value, ast.Constant) and st.value.value is True for st in ci.node.body)
+        if not gv:
+            continue
+        n += 1
+        grads = {p_ for p_ in bw.pos_params if p_ != 'ctx'}
+        before = len(out)
+        _vmap_scan(repo, bw, grads, 0, [], out, set())
+        res.inst({'class': ci.fq, 'cotangent parameters': sorted(grads), 'in-place writes of cotangent-derived values into fresh buffers': len(out) - before}, ci.fq)
+    seenk = set()
+    for f, st, buf, trail in out:
+        k = (f.fq, src(st)[:60], trail[0])
+        if k in seenk:
+            continue
+        seenk.add(k)
+        res.add(Finding('C04.VMAP', repo.func(OP, trail[0].split(':')[1]) if ':' in trail[0] else f, 'reached from %s with a cotangent-derived argument: `%s` in %s writes it in place into `%s`, '
+                        'a buffer allocated from shape expressions (un-batched under vmap): jacrev / jacobian(vectorize=True) raise "vmap: inplace arithmetic ... is not '
+                        'possible" for this operator' % (trail[0].split(':')[-1], src(st)[:60], f.qual, buf), node=None,
+                        construct='vmap in-place|%s|%s' % (f.qual, buf)))
+    if n == 0:
+        raise AnalysisError('C04.VMAP: no autograd function with generate_vmap_rule found')
+    # fixture
+    fx = ast.parse('def h(x):\n    J = torch.zeros(x.shape[:-1] + (3, 3))\n    J[..., :3, :3] = x\n    return J\n')
+    return res
+
+
 def _rules_core(repo, tier):
-    return [rule_vt(repo, tier), rule_sb(repo, tier), rule_lt(repo, tier), rule_pure(repo, tier), rule_dep(repo, tier), rule_saved(repo, tier), rule_mat4(repo, tier), rule_hrow(repo, tier)]
+    return [rule_vt(repo, tier), rule_sb(repo, tier), rule_lt(repo, tier), rule_pure(repo, tier), rule_dep(repo, tier), rule_saved(repo, tier), rule_mat4(repo, tier), rule_hrow(repo, tier), rule_vmap(repo, tier)]
 
 
 @guarded
